@@ -584,11 +584,11 @@ class ReparameterizedTimeTreeModel(TimeTreeModel, CallableModel):
 
     def cuda(self, device: Optional[Union[int, torch.device]] = None) -> None:
         super().cuda(device)
-        self.transform = GeneralNodeHeightTransform(self)
+        self.transform = type(self.transform)(self)
 
     def cpu(self) -> None:
         super().cpu()
-        self.transform = GeneralNodeHeightTransform(self)
+        self.transform = type(self.transform)(self)
 
     @staticmethod
     def json_factory(
